@@ -290,10 +290,11 @@ def run_kind(k, casefile, outdir, san=False):
     rcd, o, e = sh([os.path.join(BUILD, "bin", "driver"), casefile, out], timeout=900)
     diffs = [l for l in o.split("\n") if l.startswith("DIFF ")]
     oks = [l for l in o.split("\n") if l.startswith("OK ")]
+    draws = [l for l in o.split("\n") if l.startswith("DRAWS ")]
     m = re.search(r"SUMMARY cases=(\d+) ok=(\d+) diff=(\d+) lines=(\d+)", o)
     return dict(kind=k, casefile=casefile, outfile=out, crashed=(rc != 0), rc=rc, stderr=err[-4000:], diffs=diffs,
                 ncases=int(m.group(1)) if m else 0, nok=int(m.group(2)) if m else 0, nlines=int(m.group(4)) if m else 0,
-                driver_rc=rcd, driver_err=e[-2000:])
+                driver_rc=rcd, driver_err=e[-2000:], draws=draws)
 
 
 # --------------------------------------------------------------------------- cases
@@ -464,6 +465,14 @@ def sequential_part(prop, tier, seed, res):
             res["crashes"].append(dict(kind=KINDS[k], casefile=f, san=s, rc=r["rc"], stderr=r["stderr"]))
         for d in r["diffs"]:
             res["diffs"].append(dict(kind=KINDS[k], casefile=f, san=s, line=d))
+        if prop == "C15" and not s:
+            for dl_ in r.get("draws", []):
+                w = dl_.split()
+                cap_ = int(w[2].split("=")[1])
+                h_ = res["extra"].setdefault("victim_slot_histogram", {}).setdefault(str(cap_), [0] * cap_)
+                for x in w[3].split(","):
+                    if x != "" and int(x) < cap_:
+                        h_[int(x)] += 1
         # monitors on the implementation's traces (plain build only)
         if not s:
             try:
@@ -683,8 +692,32 @@ ASSUMPTIONS = [
 ]
 
 
+def spread_check(res):
+    """C15, second half: over many evictions no resident position is immune and none is always chosen.
+    The thresholds are so loose that a correct uniform source fails with probability < 1e-9:
+    with n >= 60*cap evictions at capacity cap, every slot must be chosen at least once
+    (P(miss) <= cap*(1-1/cap)^n) and, for cap >= 2, none more than 90% of the time."""
+    out = []
+    for cap, h in sorted(res["extra"].get("victim_slot_histogram", {}).items()):
+        cap = int(cap)
+        n = sum(h)
+        if n < 60 * cap or cap < 2:
+            continue
+        for r, c in enumerate(h):
+            if c == 0:
+                out.append("capacity %d: slot %d was never the victim in %d evictions (histogram %s)" % (cap, r, n, h))
+            if c > 0.9 * n:
+                out.append("capacity %d: slot %d was the victim in %d of %d evictions (histogram %s)" % (cap, r, c, n, h))
+    return out
+
+
 def decide(prop, res, rundir):
     """turn res into the exit code / VIOLATION lines"""
+    if prop == "C15":
+        sp = spread_check(res)
+        if sp:
+            res.setdefault("conc_violations", []).append(dict(property=prop, kind="rr", what="the victims are not spread over the resident positions",
+                                                              findings=sp, histogram=res["extra"].get("victim_slot_histogram")))
     known = res["known"]
     for kid, hits in sorted(known.items()):
         print("KNOWN-FINDING: property=%s %s (%d occurrence(s) in this run, e.g. %s)" % (prop, kid, len(hits), hits[0][:160]))
